@@ -444,6 +444,11 @@ uint32_t NiHeader::GetBlockSize(const uint32_t blockId) const {
 	return NIF_NPOS;
 }
 
+void NiHeader::SetBlockSize(const uint32_t blockId, const uint32_t blockSize) {
+	if (blockId < numBlocks && blockSizes.size() > blockId)
+		blockSizes[blockId] = blockSize;
+}
+
 std::streampos NiHeader::GetBlockSizeStreamPos() const {
 	return blockSizePos;
 }
